@@ -773,6 +773,14 @@ where
 
         // Sample FRI betas: one per commit phase
         // For each FRI commitment, observe it and sample beta
+        // One PoW witness per commit phase: a plain `zip` would silently drop the unmatched
+        // commitments from the transcript.
+        if fri_proof.commit_pow_witnesses.len() != fri_proof.commit_phase_commits.len() {
+            return Err(CircuitBuilderError::WrongBatchSize {
+                expected: fri_proof.commit_phase_commits.len(),
+                got: fri_proof.commit_pow_witnesses.len(),
+            });
+        }
         let mut betas = Vec::with_capacity(fri_proof.commit_phase_commits.len());
         for (commit, pow) in fri_proof
             .commit_phase_commits
@@ -1180,6 +1188,14 @@ where
 
         let fri_alpha = challenger.sample_ext(circuit);
 
+        // One PoW witness per commit phase: a plain `zip` would silently drop the unmatched
+        // commitments from the transcript.
+        if fri_proof.commit_pow_witnesses.len() != fri_proof.commit_phase_commits.len() {
+            return Err(CircuitBuilderError::WrongBatchSize {
+                expected: fri_proof.commit_phase_commits.len(),
+                got: fri_proof.commit_pow_witnesses.len(),
+            });
+        }
         let mut betas = Vec::with_capacity(fri_proof.commit_phase_commits.len());
         for (commit, pow) in fri_proof
             .commit_phase_commits
